@@ -229,6 +229,17 @@ GEN = {
     "GenC10b": ["Gen_checkBytes_eq", "Gen_checkSlice_eq", "Gen_checkVal_eq", "Gen_checkVal_differs_nil_ptr_other_type",
                 "Gen_checkVal_eq_same_type"],
     "GenC09": ["Gen_sortedResources_Less_eq", "Gen_sortedResources_Less_no_rules", "Gen_sortedResources_Less_uint64_tie"],
+    "GenC03b": ["Gen_Document_Include_eq", "Gen_Document_Include_fun", "Gen_Document_Include_data",
+                "Gen_Document_Include_step_pairs", "Gen_Document_Include_step_keys", "Gen_Document_Include_unique_pairs",
+                "Gen_Document_Include_unique_gen", "Gen_Document_Include_unique",
+                "Gen_Resources_GetType_eq", "Gen_Resources_Len_eq", "Gen_Resources_At_eq", "Gen_Resources_Add_eq",
+                "Gen_Resources_Len_Add", "Gen_Resources_At_Add_last", "Gen_Resources_At_Add_old",
+                "Gen_WrapperCollection_GetType_eq", "Gen_WrapperCollection_Len_eq", "Gen_WrapperCollection_At_eq",
+                "Gen_WrapperCollection_At_negative", "Gen_WrapperCollection_Add_eq", "Gen_WrapperCollection_Len_Add",
+                "Gen_WrapperCollection_At_Add_last",
+                "Gen_NewIdentifiers_map", "Gen_NewIdentifiers_eq", "Gen_Identifiers_IDs_map", "Gen_Identifiers_IDs_eq",
+                "Gen_NewIdentifiers_IDs",
+                "Gen_Meta_Has_eq", "Gen_Meta_GetInt_eq"],
     "GenC15b": ["Gen_Schema_Check_eq", "Gen_Schema_Check_all_err", "Gen_Schema_Check_length", "Gen_Schema_Check_nil_iff",
                 "Gen_Schema_buildRels_mem", "Gen_Schema_buildRels_nodup", "Gen_Schema_buildRels_perm", "Gen_Schema_Rels_order",
                 "Gen_Schema_Rels_eq", "Gen_Schema_Rels_any_order", "Gen_Type_Copy_eq", "Gen_Type_Copy_TypeV",
@@ -246,10 +257,11 @@ GEN_WHAT = {
     "GenC07b": "Type.Fields, NewParams (params.go), NewURL (url.go) and NewSimpleURL (simple_url.go; (*url.URL).Query and the two json.Unmarshal calls of the filter parameter are parameters, the keys of the values map are distinct), over structures generated from the Go struct declarations; NewParams and NewURL under the hypothesis that no sorting rule is the empty string - the code reads urule[0] and panics there, the model does not: a checked counterexample - which NewSimpleURL's results satisfy",
     "GenC10b": "the type switch of checkVal (29 cases over the Go types of attribute values and their pointer forms, the nil handling, the type assertions on the filter's value as panics), checkBytes and checkSlice - an `any` holding an attribute value is the model's GoVal, pointers are Options, the outcome of comparing two non-nil pointers is a universally quantified parameter; for values that are images of Go values, and checkVal under the hypothesis that a nil pointer attribute is compared with a value of its own type or for (in)equality: the code returns false without asserting the filter value's type there, the model panics - a checked counterexample, on ill-typed filters only -",
     "GenC09": "sortedResources.Less (range.go: the rule loop with its `-` prefixes, the id rule, the 25-case type switch with the assertions on the second value, the nil ordering of pointers, the byte loop, continue on ties; getAttrVal is a parameter instantiated with the model's, s.col[i] is the list read; the types without a case - uint64, *uint64, *[]byte - compare as ties in the translation as in the model: Gen_sortedResources_Less_uint64_tie)",
+    "GenC03b": "Document.Include (document.go: the receiver *Document is the model's Document threaded as a value, d.Data.(Resource) / d.Data.(Collection) are the constructors of the primary-data sum, a collection is read by GetType().Name, Len() and At(i) below Len(); the Include theorems of C03 - no (type, id) pair twice across primary data and included, step and history - are restated about the translated method), (*Resources).GetType/Len/At/Add and (*WrapperCollection).GetType/Len/At/Add (the index read of At is checked in the translation: Resources.At never panics, WrapperCollection.At panics below zero as the model says; r.(*Wrapper) is a parameter), NewIdentifiers, Identifiers.IDs (the stores ids[n] = … into a slice made by make([]string, len(i)) are List.set under the loop's own bound), Meta.Has and Meta.GetInt (on int and string values)",
     "GenC15b": "Schema.Check ([]error as a list with one Res.err per appended error: the result is, relationship by relationship in iteration order, checkRel errors, and its length is checkCount), Schema.buildRels (map[Rel]struct{} as a list of entries with distinct keys: the same set as relSet), Schema.Rels (sort.Slice read as the merge sort by the translated comparison, exact because relLess is a strict total order on the distinct keys: equal to relsSorted whatever the iteration order of the map) and Type.Copy (NewFunc not modelled; on maps with unique keys the copy has the source's name and entries)",
 }
 GEN_USERS = {"C16": ["GenC16", "GenC15b"], "C10": ["GenC10", "GenC10b"], "C09": ["GenC10", "GenC10b", "GenC09"], "C14": ["GenC14", "GenC15", "GenC14b"], "C15": ["GenC15", "GenC15b"], "C12": ["GenC15", "GenC15b"], "C17": ["GenC14"], "C19": ["GenC14"],
-             "C03": ["GenC03"], "C04": ["GenC03"], "C07": ["GenC07", "GenC08", "GenC07b"], "C08": ["GenC08", "GenC07b"]}
+             "C03": ["GenC03", "GenC03b"], "C04": ["GenC03"], "C07": ["GenC07", "GenC08", "GenC07b"], "C08": ["GenC08", "GenC07b"]}
 for _pid, _mods in GEN_USERS.items():
     _c = PROPS[_pid]
     _c["modules"] = list(_c.get("modules", [_pid])) + _mods
